@@ -295,6 +295,27 @@ int main(int argc, char **argv)
 					}
 				}
 	}
+	if (!v_part || !strcmp(v_part, "space")) {
+		/* (ii-b) the output-space half of the contract on the streaming API when the input arrives in SEVERAL pieces (end_of_stream
+		 * not yet set while headers are written) and output buffers may be empty or end exactly where a header ends: every call
+		 * sequence over the alphabets below; each output buffer ends at an inaccessible page and counters are checked per call */
+		static const int din_b[] = { 0, 1, 8, -1 }, dout_b[] = { 0, 1, 2, 5, 10, -1 };
+		DA_IN = din_b; NDA_IN = 4; DA_OUT = dout_b; NDA_OUT = 6; DA_NFLUSH = 3; DA_NEOS = 2;
+		SE_REQUIRE_PROGRESS = 0;
+		g_canary_span = 256;
+		static const int cpus[] = { CPU_BASE, CPU_AVX2, CPU_AVX512G2 };
+		static const int gzs[] = { IGZIP_DEFLATE, IGZIP_GZIP, IGZIP_ZLIB, IGZIP_GZIP_NO_HDR, IGZIP_ZLIB_NO_HDR };
+		uint64_t unit = 1000;
+		for (int ii = 1; ii < 7; ii += (v_thorough ? 1 : 2))
+			for (int level = 0; level <= 3; level++)
+				for (int gz = 0; gz < (v_thorough ? 5 : 3); gz++) {
+					if (!v_mine(unit++))
+						continue;
+					if (nfail > 20 || v_deadline_hit())
+						break;
+					deflate_graph(se_din[ii].name, se_din[ii].p, se_din[ii].len, level, gzs[gz], cpus[(ii + level + gz) % 3], 1, v_thorough ? 1500000 : 150000);
+				}
+	}
 	if ((!v_part || !strcmp(v_part, "params")) && v_shard == 0)
 		invalid_params();
 	if (v_shard == 0) {
